@@ -58,7 +58,7 @@ theorem invoked_unless_failed (cfg : Cfg) (view : View) (spawn : Int) (its : Lis
   have hok := Sched.ok_at h n a ha
   have hsome := hok.2.2.1
   rw [haw, Bool.true_and] at hsome
-  cases hp : precheckFails cfg ((stateAt cfg spawn its n).atTop a.top) a.start with
+  cases hp : precheckFails cfg ((stateAt cfg spawn its n).entry a.top a.start) a.start with
   | false =>
     rw [hp] at hsome
     refine ⟨Or.inl (by simpa using hsome), fun hnone => ?_⟩
@@ -88,7 +88,7 @@ theorem invoked_unless_failed_no_timeout (cfg : Cfg) (view : View) (spawn : Int)
         · exact h0
       have hlt := Sched.retries_lt h hN hpos n a ha
       simp only [precheckFails, ht, hN, Bool.false_or, decide_eq_true_eq] at hp
-      unfold HState.atTop at hp
+      rw [entry_eq] at hp
       split at hp
       · simp [HState.fresh] at hp; omega
       · rename_i hc
@@ -104,8 +104,10 @@ theorem invoked_unless_failed_no_timeout (cfg : Cfg) (view : View) (spawn : Int)
     exhausted, timeout reached), the state is kept at the top of the loop, nothing is awakened any more,
     and NO later iteration of the sequence invokes the function — derived from the state machine (`atTop`
     keeps a failed state, `awakened` is false for a finished one, `with_outcomes({})` changes nothing),
-    for every configuration and every timing. Scope: ONE timer task (`Sched`); a task stopped and spawned
-    again (filter mismatch and re-match, operator pause/resume) starts from a fresh state. -/
+    for every configuration and every timing. Scope: ONE timer task (`Sched`). Across re-spawns within one
+    operator process the code adds the id to `memory.forever_stopped` at the final failure (a6c10de;
+    `marksForeverStopped`, translator-tied) and `spawn_daemons` excludes it: there is no later task; that
+    layer is C09's/C11's model, here it is covered by the S-tie and the oracle only. -/
 theorem failed_is_last (cfg : Cfg) (view : View) (spawn : Int) (its : List Iter) (h : Sched cfg view spawn its)
     (n : Nat) (hf : (stateAt cfg spawn its n).failure = true) :
     ∀ (m : Nat) (b : Iter), n ≤ m → its[m]? = some b →
@@ -117,7 +119,8 @@ theorem failed_is_last (cfg : Cfg) (view : View) (spawn : Int) (its : List Iter)
     have : n = 0 := by omega
     subst this
     have hok := Sched.ok_at h 0 b hb
-    obtain ⟨hst, hres⟩ := step_of_failure (cfg := cfg) hf hok
+    have hpos := stateAt_finished_pos cfg spawn its 0 (by simp [HState.finished, hf])
+    obtain ⟨hst, hres⟩ := step_of_failure (cfg := cfg) hf hpos hok
     exact ⟨hres, by rw [stateAt_succ hb, hst]⟩
   | succ m ih =>
     intro b hnm hb
@@ -132,7 +135,8 @@ theorem failed_is_last (cfg : Cfg) (view : View) (spawn : Int) (its : List Iter)
         rw [this]
     have hf' : (stateAt cfg spawn its (m + 1)).failure = true := by rw [hstate]; exact hf
     have hok := Sched.ok_at h (m + 1) b hb
-    obtain ⟨hst, hres⟩ := step_of_failure (cfg := cfg) hf' hok
+    have hpos := stateAt_finished_pos cfg spawn its (m + 1) (by simp [HState.finished, hf'])
+    obtain ⟨hst, hres⟩ := step_of_failure (cfg := cfg) hf' hpos hok
     exact ⟨hres, by rw [stateAt_succ hb, hst, hstate]⟩
 
 /-- a run that fails for good leaves the state failed (the link from results to `failed_is_last`) -/
@@ -151,9 +155,9 @@ theorem failed_run_marks_state (cfg : Cfg) (spawn : Int) (its : List Iter) (n : 
     pre-check) — "no attempt starts later than T". -/
 theorem timeout_ends_series (cfg : Cfg) (view : View) (spawn : Int) (its : List Iter) (h : Sched cfg view spawn its)
     (n : Nat) (a : Iter) (T : Int) (ha : its[n]? = some a) (hnf : (stateAt cfg spawn its n).failure = false)
-    (ht : cfg.timeout = some T) (hlate : T ≤ a.start - ((stateAt cfg spawn its n).atTop a.top).started) :
+    (ht : cfg.timeout = some T) (hlate : T ≤ a.start - ((stateAt cfg spawn its n).entry a.top a.start).started) :
     a.res = none ∧ (stateAt cfg spawn its (n + 1)).failure = true := by
-  have hp : precheckFails cfg ((stateAt cfg spawn its n).atTop a.top) a.start = true := by
+  have hp : precheckFails cfg ((stateAt cfg spawn its n).entry a.top a.start) a.start = true := by
     simp [precheckFails, ht, hlate]
   have hok := Sched.ok_at h n a ha
   have hsome := hok.2.2.1
@@ -161,24 +165,36 @@ theorem timeout_ends_series (cfg : Cfg) (view : View) (spawn : Int) (its : List 
   have hnone : a.res = none := by cases hr : a.res <;> simp [hr] at hsome ⊢
   exact ⟨hnone, (invoked_unless_failed cfg view spawn its h n a ha hnf).2 hnone⟩
 
-/-- OBSERVATION (kopf defect, AUDIT_B2 §D-11; reported under C11, no clause of C10 is violated): the
-    series' `started` is stamped when the state is created — after the initial delay, BEFORE the idle
-    gate. If the idle gate holds the very first iteration for `T` or longer (e.g. `idle ≥ timeout` on a
-    freshly created object), the pre-check fires before the first call and the function is NEVER invoked
-    by this timer task. -/
-theorem timeout_before_first_call (cfg : Cfg) (view : View) (spawn : Int) (its : List Iter) (h : Sched cfg view spawn its)
-    (a : Iter) (T : Int) (ha : its[0]? = some a) (ht : cfg.timeout = some T)
-    (hlate : T ≤ a.start - initialWake cfg spawn) :
-    ∀ (m : Nat) (b : Iter), its[m]? = some b → b.res = none := by
-  have h0 : (stateAt cfg spawn its 0).atTop a.top = initState cfg spawn := by
-    rw [stateAt_zero]; exact atTop_of_unfinished (by simp [initState, HState.fresh, HState.finished]) _
-  have hnf : (stateAt cfg spawn its 0).failure = false := by rw [stateAt_zero]; rfl
-  obtain ⟨hnone, hfail⟩ := timeout_ends_series cfg view spawn its h 0 a T ha hnf ht
-    (by rw [h0]; simpa [initState, HState.fresh] using hlate)
-  intro m b hb
-  cases m with
-  | zero => rw [ha] at hb; cases hb; exact hnone
-  | succ m => exact (failed_is_last cfg view spawn its h 1 hfail (m + 1) b (by omega) hb).1
+/-- Since 9118944 the series' clock starts with its first attempt (`HState.atStart`: a state that has made
+    no attempt is re-created after the idle gate): with a positive timeout the FIRST attempt of every
+    series — the first iteration of a task, and every iteration after a success — is never refused by the
+    timeout pre-check, however long the idle gate held it (formerly AUDIT_B2 §D-11 / C11-F3: with
+    `idle ≥ timeout` the function was never invoked). -/
+theorem first_attempt_not_timed_out (cfg : Cfg) (view : View) (spawn : Int) (its : List Iter) (h : Sched cfg view spawn its)
+    (n : Nat) (a : Iter) (ha : its[n]? = some a) (hnf : (stateAt cfg spawn its n).failure = false)
+    (hfirst : attemptOf (stateAt cfg spawn its n) a = 0)
+    (ht : ∀ T, cfg.timeout = some T → 0 < T) (hr : cfg.retries ≠ some 0) : a.res.isSome = true := by
+  rcases (invoked_unless_failed cfg view spawn its h n a ha hnf).1 with h1 | ⟨_, hp⟩
+  · exact h1
+  · exfalso
+    unfold attemptOf at hfirst
+    have hst : ((stateAt cfg spawn its n).entry a.top a.start).started = a.start := by
+      rw [entry_eq] at hfirst ⊢
+      split
+      · rfl
+      · rename_i hc
+        rw [if_neg hc] at hfirst
+        simp [hfirst] at hc
+    simp only [precheckFails, hst, hfirst, Int.sub_self, Bool.or_eq_true] at hp
+    rcases hp with hp | hp
+    · cases hT : cfg.timeout with
+      | none => simp [hT] at hp
+      | some T => have := ht T hT; simp [hT] at hp; omega
+    · cases hN : cfg.retries with
+      | none => simp [hN] at hp
+      | some N =>
+        simp [hN] at hp
+        exact hr (by rw [hN, hp])
 
 /-! ### after a successful run: the interval -/
 
@@ -316,8 +332,8 @@ theorem error_delay_law (cfg : Cfg) (view : View) (spawn : Int) (its : List Iter
     Gate cfg view (max a.patched (a.ended + d)) b.start ∧ a.ended + d ≤ b.start ∧ a.patched ≤ b.start ∧
     (cfg.idle = none → b.start = max a.patched (a.ended + d)) := by
   have hst : stateAt cfg spawn its (n + 1) =
-      { ((stateAt cfg spawn its n).atTop a.top) with
-        retries := ((stateAt cfg spawn its n).atTop a.top).retries + 1, success := false, failure := false,
+      { ((stateAt cfg spawn its n).entry a.top a.start) with
+        retries := ((stateAt cfg spawn its n).entry a.top a.start).retries + 1, success := false, failure := false,
         delayed := some (a.ended + d) } := by
     rw [stateAt_succ ha]; unfold attemptOf runtimeOf at hc; simp [step, hr, hc, HState.withOutcome]
   have hnext := (Sched.step_at h ha hb).1
@@ -327,7 +343,7 @@ theorem error_delay_law (cfg : Cfg) (view : View) (spawn : Int) (its : List Iter
   refine ⟨(invoked_unless_failed cfg view spawn its h (n + 1) b hb hnf).1, ?_,
     error_delay_step cfg view _ a b.top b.start (a.ended + d) hfin hdl hnext⟩
   unfold attemptOf
-  rw [atTop_of_unfinished hfin, hst]
+  rw [entry_of_retrying hfin (by rw [hst]; simp), hst]
 
 /-! ### the first run: the initial delay -/
 
@@ -489,16 +505,22 @@ example : schedCheck cfgR pv0 8 0 [f1, f2, { f3 with res := some .ok }] = false 
 -- a one-shot timer that failed for good: the loop breaks
 example : nextStartN { cfgI with idle := none } pv0 8 (step cfgI (.fresh 0) { f1 with res := some .permanent }) f1 = .ended := by decide
 
--- timeout = 1 s, idle = 2 s on an object created at the spawn (t = 64): the gate holds the first iteration
--- until 192, 128 ticks after the state was created: `HandlerTimeoutError` before the first call, and the
--- function is never invoked (`timeout_before_first_call`; AUDIT_B2 §D-11). With timeout = 3 s it runs.
+-- timeout = 1 s, idle = 2 s on an object created at the spawn (t = 64): the gate holds the first iteration until
+-- 192, 128 ticks after the loop top — before 9118944 a `HandlerTimeoutError` before the first call (never invoked);
+-- now the clock starts at 192 and the function runs (`first_attempt_not_timed_out`), also after each success
 private def cfgT : Cfg := { interval := some 64, sharp := false, idle := some 128, initialDelay := none, backoff := 64, timeout := some 64 }
-private def t1 : Iter := { top := 64, start := 192, ended := 192, patched := 192, res := none }
-private def t2 : Iter := { top := 256, start := 256, ended := 256, patched := 256, res := none }
+private def t1 : Iter := { top := 64, start := 192, ended := 192, patched := 192, res := some .ok }
+private def t2 : Iter := { top := 256, start := 256, ended := 256, patched := 256, res := some .ok }
 example : Sched cfgT view0 64 [t1, t2] := schedCheck_sound (extends_total _) (n := 8) (by decide)
-example : (64 : Int) ≤ t1.start - initialWake cfgT 64 := by decide
-example : Sched { cfgT with timeout := some 192 } view0 64 [{ t1 with res := some .ok }, { t2 with res := some .ok }] :=
-  schedCheck_sound (extends_total _) (n := 8) (by decide)
+example : schedCheck cfgT pv0 8 64 [{ t1 with res := none }] = false := by decide
+-- a retry series does time out: temporary errors every 40 ticks, timeout 64: the third attempt would start at 80 ≥ 64
+-- after the first (look-ahead makes the second failure final: 40 + 40 ≥ 64), `timeout_ends_series` / `classify`
+private def cfgU : Cfg := { cfgS with timeout := some 64 }
+private def u1 : Iter := { top := 0, start := 0, ended := 0, patched := 0, res := some (.temporary (some 40)) }
+private def u2 : Iter := { top := 40, start := 40, ended := 40, patched := 40, res := some (.temporary (some 40)) }
+private def u3 : Iter := { top := 168, start := 168, ended := 168, patched := 168, res := none }
+example : Sched cfgU view0 0 [u1, u2, u3] := schedCheck_sound (extends_total _) (n := 8) (by decide)
+example : (stateAt cfgU 0 [u1, u2, u3] 2).failure = true := by decide
 -- look-ahead: a temporary error whose delay would cross the timeout is final
 example : classify { cfgA with timeout := some 100 } 0 70 (.temporary (some 40)) = .failed ∧
           classify { cfgA with timeout := some 100 } 0 50 (.temporary (some 40)) = .retry (some 40) := by decide
